@@ -18,6 +18,8 @@ Next == Len(text) < MaxLen /\ \E c \in Alphabet : text' = Append(text, c)
 Spec == Init /\ [][Next]_text
 
 ParserIsGrammar == Parse(text) = Commands(text)
+\* the fold that computes Commands is the defining recursion
+FoldIsRecursion == Commands(text) = Cmds(text, 1)
 
 NoLoc(c) == [k |-> c.k, h |-> c.h, d |-> c.d, a |-> c.a, raw |-> c.raw]
 NoLocs(cs) == [i \in DOMAIN cs |-> NoLoc(cs[i])]
